@@ -12,7 +12,7 @@
    ones show, for each rule of the unchanged code, an operation sequence on
    which the property fails — they are replayed on the real code by the check. *)
 From PV Require Import Base.Tac Info.InfoDefs Info.InfoRegProofs Info.InfoSpecProofs Info.InfoMain.
-From PV Require Import Info.InfoConcDefs Info.InfoConcProofs.
+From PV Require Import Info.InfoConcDefs Info.InfoConcProofs Info.InfoConcRegDefs Info.InfoConcRegProofs.
 From Coq Require Import NArith.
 Local Open Scope nat_scope.
 
@@ -227,6 +227,45 @@ Proof.
   split; [|split; [|split]]; try (vm_compute; reflexivity).
   constructor; [exact I|]. constructor; [|constructor]. intros _. split; [reflexivity|discriminate].
 Qed.
+
+(* ---- concurrent clients of the registry ------------------------------------------------
+   InfoConcRegDefs.v: any number of threads call register / unregister (of an id they hold) /
+   lookup on one registry; each call takes effect atomically at the step that acquires the
+   list lock (same InfoDefs.register / unreg_scan / lookup as the sequential model); [rrun]
+   folds an arbitrary schedule.  The theorems hold for the repaired insertion rule. *)
+
+(* in every interleaving names and ids are in one-to-one relation *)
+Theorem C41_conc_registry_injective : forall fx pre progs sched, fx_reg fx = true ->
+  let c := rrun fx (rinit fx pre progs) sched in
+  NoDup (map e_iid (h_reg c)) /\ NoDup (map e_name (h_reg c)).
+Proof. exact P_conc_registry_injective. Qed.
+Print Assumptions C41_conc_registry_injective.
+
+(* of any number of registrations of one name at most one holds at any time, and lookup
+   returns the id that registrant was given *)
+Theorem C41_conc_one_registrant_per_name : forall fx pre progs sched, fx_reg fx = true ->
+  let c := rrun fx (rinit fx pre progs) sched in
+  NoDup (map hname (h_held c)) /\
+  forall n i t, In (n, i, t) (h_held c) -> option_map fst (lookup n (h_reg c)) = Some i.
+Proof. exact P_conc_one_holder. Qed.
+Print Assumptions C41_conc_one_registrant_per_name.
+
+(* whatever a thread sees when it looks at the registry lists each id once and each name once *)
+Theorem C41_conc_registry_views : forall fx pre progs sched, fx_reg fx = true ->
+  let c := rrun fx (rinit fx pre progs) sched in
+  forall u th x l, nth_error (h_thr c) u = Some th -> In x (q_res th) -> x_snap x = Some l ->
+    NoDup (map fst l) /\ NoDup (map snd l).
+Proof. exact P_conc_snapshots. Qed.
+Print Assumptions C41_conc_registry_views.
+
+(* three threads register name 0 at the same moment (name 1 registered before): one succeeds *)
+Example C41_conc_registry_example :
+  let c := rrun all_fixed (rinit all_fixed [(1, 0)] [[QReg 0; QLook 0]; [QReg 0; QLook 1]; [QLook 0; QReg 0]])
+                [0; 1; 2; 2; 1; 0; 0; 1; 2; 0; 1; 2; 0; 1; 2; 0; 1; 2; 0; 1; 2; 0; 1; 2; 0; 1; 2; 1; 1; 1; 1; 1; 1; 0; 0; 2; 2] in
+  r_all_done c = true /\ map (fun e => (e_iid e, e_name e)) (h_reg c) = [(0, 1); (1, 0)] /\
+  length (filter (fun x => match x_kind x, x_ret x with KReg, Some _ => true | _, _ => false end)
+                 (flat_map q_res (h_thr c))) = 1.
+Proof. exact conc_reg_example. Qed.
 
 (* ---- non-vacuity ----------------------------------------------------------------- *)
 (* three infos, a hole in the middle, two more registrations; an array created when only
